@@ -38,6 +38,10 @@ type genState struct {
 	accepted []string
 	specs    map[string]string
 	hasTests map[string]bool // compile-only units: the generator wrote _test.go files (example tests)
+	gout     genOutput
+	okPkg    map[string]bool
+	udir     string
+	broken   map[int]string // package index -> first type error (accepted by the generator, does not type-check)
 }
 
 var genStates = map[string]*genState{}
@@ -153,14 +157,6 @@ func generateUnit(hdir, scratch string, u *UnitSpec, tier string, seed int64) er
 		}
 	}
 	// overlay: generated files, harness copies, extra files
-	var hub strings.Builder
-	hub.WriteString("// Code generated by symgo (hub of generated packages). DO NOT EDIT.\npackage zzhub\n\nimport (\n")
-	for i, p := range gout.Packages {
-		if okPkg[p.Name] {
-			fmt.Fprintf(&hub, "\tp%d %q\n", i, modPath+"/internal/zzgen/"+u.Name+"_"+p.Name)
-		}
-	}
-	hub.WriteString(")\n\n")
 	for i, p := range gout.Packages {
 		if !okPkg[p.Name] {
 			continue
@@ -201,6 +197,32 @@ func generateUnit(hdir, scratch string, u *UnitSpec, tier string, seed int64) er
 		}
 		_ = i
 	}
+	st.gout, st.okPkg, st.udir, st.broken = gout, okPkg, udir, map[int]string{}
+	st.writeHub(u)
+	hubDir := "internal/zzgen/" + u.Name + "_hub"
+	u.Pkg = modPath + "/" + hubDir
+	u.Dir = hubDir
+	if len(st.accepted) == 0 {
+		return fmt.Errorf("the generator rejected every spec of the unit: %v", st.rejected)
+	}
+	if u.CompileOnly {
+		delete(st.files, filepath.Join(repoDir, hubDir, "zz_verif_hub.go"))
+	}
+	return nil
+}
+
+// writeHub (re)writes the hub package for the packages currently marked ok.
+func (st *genState) writeHub(u *UnitSpec) {
+	g := u.Gen
+	gout, okPkg, udir := st.gout, st.okPkg, st.udir
+	var hub strings.Builder
+	hub.WriteString("// Code generated by symgo (hub of generated packages). DO NOT EDIT.\npackage zzhub\n\nimport (\n")
+	for i, p := range gout.Packages {
+		if okPkg[p.Name] {
+			fmt.Fprintf(&hub, "\tp%d %q\n", i, modPath+"/internal/zzgen/"+u.Name+"_"+p.Name)
+		}
+	}
+	hub.WriteString(")\n\n")
 	// hub entries
 	var entryNames []string
 	for n := range g.HubEntry {
@@ -236,15 +258,37 @@ func generateUnit(hdir, scratch string, u *UnitSpec, tier string, seed int64) er
 	os.WriteFile(hubPath, []byte(hub.String()), 0o644)
 	hubDir := "internal/zzgen/" + u.Name + "_hub"
 	st.files[filepath.Join(repoDir, hubDir, "zz_verif_hub.go")] = hubPath
-	u.Pkg = modPath + "/" + hubDir
-	u.Dir = hubDir
-	if len(st.accepted) == 0 {
-		return fmt.Errorf("the generator rejected every spec of the unit: %v", st.rejected)
+}
+
+// dropBroken removes generated packages that do not type-check from the unit (their cases become inconclusive) so
+// that the other packages of the unit can still be checked. Returns false when nothing usable is left.
+func (st *genState) dropBroken(u *UnitSpec, bad map[string]string) bool {
+	n := 0
+	for i, p := range st.gout.Packages {
+		path := modPath + "/internal/zzgen/" + u.Name + "_" + p.Name
+		if msg, ok := bad[path]; ok && st.okPkg[p.Name] {
+			st.okPkg[p.Name] = false
+			st.broken[i] = p.Name + ": " + msg
+			prefix := filepath.Join(repoDir, "internal/zzgen", u.Name+"_"+p.Name) + string(filepath.Separator)
+			for k := range st.files {
+				if strings.HasPrefix(k, prefix) {
+					delete(st.files, k)
+				}
+			}
+			n++
+		}
 	}
-	if u.CompileOnly {
-		delete(st.files, filepath.Join(repoDir, hubDir, "zz_verif_hub.go"))
+	left := 0
+	for _, ok := range st.okPkg {
+		if ok {
+			left++
+		}
 	}
-	return nil
+	if n == 0 || left == 0 {
+		return false
+	}
+	st.writeHub(u)
+	return true
 }
 
 func prefixComma(s string) string {
